@@ -344,6 +344,62 @@ def cookie_lookup_case():
     return None
 
 
+def outside_protocol_case():
+    """whatever the server says outside the protocol closes the connection: command words in another case, words that happen
+    to name helpers of the implementation (the dispatch is by name), and an unterminated run of more than 16 KiB"""
+    from twisted.internet.testing import StringTransport
+    from txdbus import protocol, authentication as au
+    from txdbus.error import DBusAuthenticationFailed
+    protocol_words = {'REJECTED', 'OK', 'DATA', 'ERROR', 'AGREE_UNIX_FD'}
+    words = {'begin', 'BEGIN', 'Begin', 'ok', 'Ok', 'data', 'error', 'rejected', 'agree_unix_fd', 'CANCEL', 'AUTH', 'NEGOTIATE_UNIX_FD', 'TryNextMethod', 'begin_auth'}
+    for unix in (False, True):
+        ca0, _p0 = make_client(unix)
+        for name in dir(ca0):
+            for prefix in ('_auth_', '_auth', 'auth_', 'auth'):
+                if name.startswith(prefix) and name[len(prefix):]:
+                    words.add(name[len(prefix):])
+        for w_ in sorted(words - protocol_words):
+            for arg in (b'', b' 1234deadbeef', b' x'):
+                for prelude in ([], [b'REJECTED ANONYMOUS'], [b'OK 1234deadbeef']):
+                    ca, p = make_client(unix)
+                    try:
+                        for l in prelude:
+                            ca.handleAuthMessage(l)
+                        if ca.authenticated:
+                            continue
+                        n0 = len(p.sent)
+                        ca.handleAuthMessage(w_.encode('ascii') + arg)
+                    except DBusAuthenticationFailed:
+                        continue                 # closes: the prescribed outcome
+                    except Exception as e:
+                        return 'server line %r after %r raised %s: %s' % (w_.encode('ascii') + arg, prelude, type(e).__name__, e)
+                    return 'server line %r (not a command of the protocol) after %r: the client carried on (sent %r, authenticated=%r) instead of closing' % (
+                        w_.encode('ascii') + arg, prelude, p.sent[n0:], ca.authenticated)
+
+    class GP:
+        @staticmethod
+        def getuser(): return 'testuser'
+    au.getpass = GP
+
+    class CP(protocol.BasicDBusProtocol):
+        authenticator = au.ClientAuthenticator
+    for prelude in (b'', b'REJECTED ANONYMOUS\r\n', b'REJECTED ANONYMOUS\r\nDATA 00'):
+        for chunk in (20000, 1024, 16385 - len(prelude.split(b'\r\n')[-1])):
+            cp = CP()
+            t = StringTransport()
+            cp.makeConnection(t)
+            junk = b'x' * 17000
+            if prelude:
+                cp.dataReceived(prelude)
+            for i in range(0, len(junk), chunk):
+                if t.disconnecting:
+                    break
+                cp.dataReceived(junk[i:i + chunk])
+            if not t.disconnecting:
+                return 'server sends %d bytes without a line end (after %r, reads of %d): the client keeps waiting instead of closing' % (len(junk), prelude, chunk)
+    return None
+
+
 def cookie_handshake_case():
     """full DBUS_COOKIE_SHA1 exchanges against a keyring in a temporary directory: a challenge naming a stored cookie is
     answered with the matching hash and the handshake completes; a challenge the client cannot answer (id not in the
@@ -408,6 +464,10 @@ def cookie_handshake_case():
 def bounded(tier, seed):
     n = 0
     n += 1
+    f = outside_protocol_case()
+    if f:
+        return n, f, {'case': 'server lines outside the protocol'}
+    n += 1
     f = cookie_handshake_case()
     if f:
         return n, f, {'case': 'cookie handshake'}
@@ -437,7 +497,7 @@ def bounded(tier, seed):
                 if f:
                     return n, f, {'lines': [l.decode('latin-1') for l in lines], 'unix': unix}
     rnd = random.Random(seed)
-    for _ in range(3000 if tier == 'thorough' else 60):
+    for _ in range(30000 if tier == 'thorough' else 60):
         lines = [rnd.choice(SERVER_LINES) for _ in range(rnd.randrange(4, 10))]
         unix = rnd.random() < 0.5
         n += 1
